@@ -1,11 +1,18 @@
+#![allow(unexpected_cfgs)] // `excsn_fibre_verif` gates the verification seam H5 below
 use crate::async_util::AtomicWaker;
 use crate::error::{RecvError, TryRecvError, TrySendError};
 
 use core::task::{Context, Poll};
 use std::fmt;
 use std::mem::MaybeUninit;
+#[cfg(not(all(loom, excsn_fibre_verif)))]
 use std::sync::atomic::{AtomicBool, AtomicUsize, Ordering};
+#[cfg(not(all(loom, excsn_fibre_verif)))]
 use parking_lot::Mutex;
+// Verification seam H5: under `--cfg loom --cfg excsn_fibre_verif` the oneshot channel takes its
+// primitives from the crate-wide loom switch like the migrated channels do.
+#[cfg(all(loom, excsn_fibre_verif))]
+use crate::internal::sync::{AtomicBool, AtomicUsize, Mutex, Ordering};
 
 // State constants for OneShotShared::state
 pub(super) const STATE_EMPTY: usize = 0; // No value, receiver may be waiting. Initial state.
